@@ -14,6 +14,11 @@
 (*   6, 7       encoder / decoder equal to the as-is model (drift only)    *)
 (* Batch.matches: (pattern, concrete, observed Encoding.match) triples.    *)
 (* Batch.tables: codec round trips (cells dictionary-encoded), auxiliary.  *)
+(* Batch.requests: served requests [ct, accept, reply, receive]: content    *)
+(*   type of the payload, Accept header (ranges in header order, <<>> =    *)
+(*   none), encoding of the response produced over request.accept, outcome *)
+(*   of Generic.receive - judged by ReplySet / DecoderSet of Negotiation   *)
+(*   (the Accept header is put into preference order by Parsed).           *)
 (***************************************************************************)
 EXTENDS Negotiation, IOUtils, TLCExt
 Batch == JsonDeserialize(IOEnv.TRACE_FILE)
@@ -35,22 +40,38 @@ TInit == tid \in 1..NT /\ l = 1 /\ flags = <<>> /\ Init
 Read == /\ l <= Len(Tr.hdr)
         /\ AddRange(InRange(Tr.hdr[l]))
         /\ l' = l + 1 /\ UNCHANGED <<tid, flags>>
-EncOk(o) == LET S == EncoderSet(Mine) IN IF S = {} THEN o = Unsupported ELSE \E e \in S : Encoders[e] = o
-EncImpl(o) == o = (IF ImplEncoder(Mine) = 0 THEN Unsupported ELSE Encoders[ImplEncoder(Mine)])
+\* S = the allowed encoders (EncoderSet), I = the as-is choice (ImplEncoder, 0 = none)
+EncOk(S, o) == IF S = {} THEN o = Unsupported ELSE \E e \in S : Encoders[e] = o
+EncImpl(I, o) == o = (IF I = 0 THEN Unsupported ELSE Encoders[I])
 Judge == /\ l = Len(Tr.hdr) + 1 /\ N > 0
-         /\ flags' = <<
+         /\ LET S == EncoderSet(Mine)            \* (each evaluated once per header)
+                I == ImplEncoder(Mine)
+                D == DecoderSet(Mine[1])
+            IN flags' = <<
               B(Len(Tr.parsed) = N /\ \A p \in 1..N : InEnc(Tr.parsed[p]) = Mine[p]),
-              B(EncOk(InEnc(Tr.enc))),
+              B(EncOk(S, InEnc(Tr.enc))),
               B(Tr.dec = NotObserved \/ ~Concrete(Mine[1]) \/
-                  (IF DecoderSet(Mine[1]) = {} THEN Tr.dec = DecUnsupported ELSE Tr.dec \in DecoderSet(Mine[1]))),
-              B(Tr.respond.t = "-" \/ EncOk(InEnc(Tr.respond))),
+                  (IF D = {} THEN Tr.dec = DecUnsupported ELSE Tr.dec \in D)),
+              B(Tr.respond.t = "-" \/ EncOk(S, InEnc(Tr.respond))),
               B(Tr.receive = NotObserved \/ ~Concrete(Mine[1]) \/
-                  ((DecoderSet(Mine[1]) = {}) <=> (Tr.receive = DecUnsupported))),
-              B(EncImpl(InEnc(Tr.enc))),
+                  ((D = {}) <=> (Tr.receive = DecUnsupported))),
+              B(EncImpl(I, InEnc(Tr.enc))),
               B(Tr.dec = NotObserved \/ ~Concrete(Mine[1]) \/ Tr.dec = ImplDecoder(Mine[1])) >>
          /\ l' = l + 1 /\ UNCHANGED <<tid, hdr, pref>>
 TNext == Read \/ Judge
 TSpec == TInit /\ [][TNext]_tvars
+
+\* ---- served requests (pure input -> output observations)
+InHeader(h) == [i \in 1..Len(h) |-> InRange(h[i])]
+ReplyOk(r, strict) ==        \* strict: also without an Accept header (as-is default: the encoding of the request)
+    LET ps == Parsed(InHeader(r.accept))
+        S == ReplySet(InEnc(r.ct), ps)
+        o == InEnc(r.reply)
+    IN (~strict /\ Len(r.accept) = 0) \/ (IF S = {} THEN o = Unsupported ELSE \E e \in S : Encoders[e] = o)
+ReceiveOk(r) ==              \* 0 = Unsupported, 1 = decoded, 2 = a decoder was found but could not read the payload
+    \/ r.receive = NotObserved
+    \/ /\ r.receive \in {0, 1, 2}
+       /\ ~Concrete(InEnc(r.ct)) \/ ((DecoderSet(InEnc(r.ct)) = {}) <=> (r.receive = DecUnsupported))
 
 Track == TLCSet(tid, IF TLCGet(tid)[1] < l THEN <<l>> \o flags ELSE TLCGet(tid))
 ASSUME \A i \in 1..NT : TLCSet(i, <<0>>)
@@ -59,4 +80,6 @@ Post == /\ \A i \in 1..NT : PrintT(<<"VERDICT", i, Len(Batch.traces[i].hdr) + 2,
               LET m == Batch.matches[i] IN PrintT(<<"MATCH", i, Match(InEnc(m.p), InEnc(m.c)), m.m>>)
         /\ \A i \in 1..Len(Batch.tables) :
               LET x == Batch.tables[i] IN PrintT(<<"TABLE", i, x.src = x.out>>)
+        /\ \A i \in 1..Len(Batch.requests) :
+              LET r == Batch.requests[i] IN PrintT(<<"REQUEST", i, B(ReplyOk(r, FALSE)), B(ReceiveOk(r)), B(ReplyOk(r, TRUE))>>)
 =============================================================================
